@@ -66,6 +66,11 @@ function familyB (tier, opts = {}) {
     k,
     valid: (cur) => {
       if (cur.stmtctx && G.STMT_SLOPPY_ONLY.has(cur.stmtctx) && cur.scope && (cur.scope === 'strict_fn' || cur.scope === 'strict_file' || cur.scope === 'module')) return false
+      // optional reduction: a second deviation only as (statement ctx, expression ctx) pair
+      if (opts.pairs === 'ctx-only' && cur.config !== undefined) {
+        const dev = ['stmtctx', 'exprctx', 'scope', 'config'].filter((d) => cur[d] !== dims.find((x) => x.name === d).symbols[0])
+        if (dev.length === 2 && !(dev.includes('stmtctx') && dev.includes('exprctx'))) return false
+      }
       return true
     }
   })
@@ -94,8 +99,9 @@ function familyC (tier, opts = {}) {
       }
     }
   }
-  if (tier === 'thorough') {
-    // depth 3: representative outer and middle schemas (one per rewriting path), every schema innermost
+  {
+    // depth 3: representative outer and middle schemas (one per rewriting path); innermost: every schema in
+    // the thorough tier, the representatives in the quick tier
     const REP = ['@X@ + @Y@', 'x += @Y@', 'g().p += @Y@', '`p${@X@}q${@Y@}r`', 'a.concat(@X@, @Y@)', '@X@.concat(@Y@)', '@X@?.trim()', 'o?.q.concat(@X@)', 'X.prototype.concat.call(@X@, @Y@)', 'X.prototype.concat.apply(a, [@X@, @Y@])', 'aloneMethod(@X@)', 'a.concat(...@S@)']
     const reps = G.SCHEMAS.filter((x) => REP.includes(x.tpl))
     for (const outer of reps) {
@@ -103,7 +109,7 @@ function familyC (tier, opts = {}) {
         for (const mid of reps) {
           for (const mslot of mid.slots) {
             stats.states++; stats.transitions++
-            for (const inn of inner) {
+            for (const inn of (tier === 'thorough' ? inner : reps)) {
               stats.states++; stats.transitions++
               const innerText = '(' + G.fill(inn.tpl, innerDefaults) + ')'
               const mpick = {}
@@ -174,10 +180,50 @@ function familyM (tier, opts = {}) {
   return { leaves, stats: r.stats }
 }
 
+// S: sequences of statements inside ONE block (the temporary counter, the list of temporaries to declare
+// and the identifier registry are state shared by the statements of a block): all sequences up to length 3
+const S_STMTS = {
+  plus_temps: 'x = a + f();',
+  plus_plain: 'y = a + b;',
+  tpl: 'x = `${a}${f()}`;',
+  method: 'y = s.trim();',
+  chain: 'y = s?.trim().length;',
+  chain_nohook: 'y = o?.prototype.trim();',
+  member_assign: 'o.q.p += f();',
+  both_temps_assign: 'g()[k] += a;',
+  literal_only: "y = 'l' + 'm';",
+  nested_block: '{ x = x + g(1).concat(a); }',
+  if_op: 'if (c) x = a + f(); else y = b + a;',
+  arrow_op: 'y = ((q) => q + a)(b);',
+  loop_op: 'for (const q of arr) x += q + f();',
+  proto: 'y = X.prototype.concat.call(a, f(), b);',
+  spread: 'y = a.concat(...arr, f());',
+  unconfigured: 'y = a.toUpperCase();'
+}
+function familyS (tier, opts = {}) {
+  const names = Object.keys(S_STMTS)
+  const L = opts.L || 3
+  const dims = []
+  for (let i = 0; i < L; i++) dims.push({ name: 's' + i, symbols: [null].concat(names), free: true })
+  dims.push({ name: 'where', symbols: ['fnbody', 'block', 'strict'], free: tier === 'thorough' })
+  const r = enumerate(dims, { k: 0, valid: (cur, i) => !(i >= 1 && i < L && cur['s' + (i - 1)] === null && cur['s' + i] !== null) })
+  const leaves = []
+  for (const l of r.leaves) {
+    const seq = []
+    for (let i = 0; i < L; i++) if (l.pick['s' + i]) seq.push(l.pick['s' + i])
+    if (!seq.length) continue
+    const body = seq.map((n) => S_STMTS[n]).join(' ')
+    const leaf = mkLeaf('S', { op: seq.join('>'), opkind: 'stmts', scope: l.pick.where === 'strict' ? 'strict_fn' : 'sloppy' })
+    leaf.code = G.SCOPES[leaf.scope](l.pick.where === 'block' ? `{ ${body} } return [x, y]` : `${body} return [x, y]`)
+    leaves.push(leaf)
+  }
+  return { leaves, stats: r.stats }
+}
+
 function all (tier, opts = {}) {
   let leaves = []
   let stats = { states: 1, transitions: 0 }
-  const fams = { A: familyA, B: familyB, C: familyC, G: familyG, M: familyM }
+  const fams = { A: familyA, B: familyB, C: familyC, G: familyG, M: familyM, S: familyS }
   for (const f of (opts.families || ['A', 'B', 'C', 'G'])) {
     const r = fams[f](tier, opts[f] || {})
     leaves = leaves.concat(r.leaves)
@@ -190,4 +236,4 @@ function all (tier, opts = {}) {
   return { leaves: uniq, stats }
 }
 
-module.exports = { familyA, familyB, familyC, familyG, familyM, M_FNS, all, REP_OPS, REP_OPS_Q, CONFIGS, mkLeaf }
+module.exports = { familyA, familyB, familyC, familyG, familyM, familyS, M_FNS, S_STMTS, all, REP_OPS, REP_OPS_Q, CONFIGS, mkLeaf }
